@@ -486,7 +486,12 @@ func (p *parser) parseOr() Expr {
 	x := p.parseAnd()
 	for p.isOp("||") {
 		p.next()
-		y := p.parseAnd()
+		var y Expr
+		if p.isIdent("forall") || p.isIdent("exists") {
+			y = p.parseExpr()
+		} else {
+			y = p.parseAnd()
+		}
 		x = &EBinary{Op: "||", X: x, Y: y}
 	}
 	return x
